@@ -2,11 +2,13 @@
 mod c01;
 mod c02;
 mod c03;
+mod c05;
 mod c09;
 mod c12;
 mod c13;
 mod c14;
 mod c15;
+mod c16;
 mod c17;
 mod c18;
 mod c19;
@@ -23,11 +25,14 @@ fn main() {
         "C02" => &c02::C02,
         "C03" => &c03::C03,
         "C04" => &c03::C04,
+        "C05" => &c05::C05,
+        "C06" => &c05::C06,
         "C09" => &c09::C09,
         "C12" => &c12::C12,
         "C13" => &c13::C13,
         "C14" => &c14::C14,
         "C15" => &c15::C15,
+        "C16" => &c16::C16,
         "C17" => &c17::C17,
         "C18" => &c18::C18,
         "C19" => &c19::C19,
